@@ -196,6 +196,21 @@ CHECKS = {
              "<= 5 / 6 nodes in total, general graphs 4 nodes x 3-4 links, cycles up to 5 / 6 nodes. Outside: exhaustive 8-node "
              "tree histories.",
         ref="DESIGN.md section 3 C20", technique="solver-driven path exploration of the real node.py over symbolic link histories (z3 feasibility + exhaustiveness query) and CrossHair `check` on the same harness"),
+    "C13": dict(
+        text="Reduced scope (DESIGN.md section 3 C13): the STRUCTURE of a message -- type OPM/OEM/OMM, KVN or XML, time scale and "
+             "frame, 0..2 maneuvers of either kind in inertial/QSW/TNW axes with or without comment, covariance absent / in the "
+             "state's frame / QSW / TNW, 0..2 user-defined parameters, keplerian block or not, 1..2 ephemerides of 1..3 points with "
+             "covariances on the first points, Lagrange or linear interpolation -- is a vector of symbolic integers concretised by "
+             "the forking driver through solver feasibility queries; the real dumps()/loads() run on real objects for every "
+             "explored configuration (concrete payload with distinct values per slot) and a final query per group proves that "
+             "the explored path conditions cover the whole configuration space and that none violates the oracle: epochs to 1 us "
+             "in the same scale, frame, name/id, coordinates to 1 mm and 1 mm/s, covariance values and frame, maneuvers (epoch, "
+             "duration, delta-v, frame, comment), interpolation settings, user-defined fields; KVN and XML decode to the same "
+             "object; what was read can be written again identically.",
+        note="Trusted: z3 for the enumeration/exhaustiveness; the payload is concrete, so this check is exhaustive over message "
+             "structures within the bounds, not over numeric values. Outside: TDM, arbitrary numeric payloads, XSD validity, "
+             "non-Earth centres. Date handling of the writers across scale labels is proved under C04.",
+        ref="DESIGN.md section 3 C13", technique="solver-enumerated message structures (symbolic choice vector, z3 feasibility + exhaustiveness query) driving the real dumps/loads on real objects"),
     "C14": dict(
         text="The real Cov.frame setter, Cov.copy and the covariance clause of StateVector.frame's setter run on typed stand-ins: "
              "frames are symbolic integers, Orientation.convert_to / to_local return typed rotations, the covariance value and the "
@@ -223,9 +238,6 @@ CHECKS = {
 NOT_APPLICABLE = {
     "C07": "SGP4 vs reference theory: numeric agreement of two ~400-operation floating-point programs with libm calls and a Kepler "
            "iteration; no algebraic oracle and far beyond bit-precise FP solving (DESIGN.md section 6). The date hand-over is covered under C04.",
-    "C13": "CCSDS OPM/OEM/OMM/TDM round trip: planned at reduced scope with the opaque-token technique (DESIGN.md section 9) but not built in "
-           "this round; the readers parse dates with strptime and numbers with float() out of regex matches, which needs the token "
-           "machinery for both; rather than checking it another way it is left unclaimed. The writers' date handling is covered under C04.",
     "C15": "value semantics/atomicity live in numpy's C heap (ndarray.base, views, pickle); neither CrossHair nor the symbolic executor "
            "can make that heap symbolic; exploring copy/assign sequences concretely would be a different technique (DESIGN.md section 6).",
     "C18": "truth is a binary JPL kernel and 60-term floating-point series; agreement to 0.02 deg is a numerical fact about data, "
